@@ -27,6 +27,8 @@ BOUND = {
     "quick": "strings of <=2 fragments (600) x 15 channels x applicable reference placements x {one, two languages} on dict input; single fragments additionally through md and xlsx",
     "thorough": "strings of <=3 fragments (14 424) x 15 channels x reference placements x language modes on dict input; strings of <=2 through md and xlsx",
 }
+# as-built additions to the bound (kept next to BOUND so that the evidence reports them)
+BOUND = {k: v + "; plus: " + 'the same text in a second cell (other row / other language) and a reference-bearing neighbour cell emitted just before the cell under test' for k, v in BOUND.items()}
 
 FRAGS = ["<", ">", "&", '"', "'", "]]>", "&amp;", "&#60;", "&lt;", "<!--", "-->", "<![CDATA[",
          '<output value="x"/>', "</label>", "{", "}", "$", "a", "é", "\U0001F600", "שלום", "a  b", " ", "-"]
